@@ -1,6 +1,7 @@
 package sx
 
 import (
+	"os"
 	"fmt"
 	"go/constant"
 	"go/token"
@@ -18,6 +19,9 @@ func (i *interp) runtimeErr(msg string) value {
 }
 
 func (i *interp) throw(msg string) {
+	if os.Getenv("VERIF_DEBUG_THROW") != "" {
+		fmt.Fprintf(os.Stderr, "THROW %s at %s stack: %s\n", msg, i.where(), i.stack())
+	}
 	panic(targetPanic{v: i.runtimeErr(msg), where: i.where()})
 }
 
